@@ -7,7 +7,7 @@ for f in sorted(glob.glob("/tmp/wt/confirm/*.json")):
     if "error" in d:
         print("skip", f, d); continue
     ok = d["demo_clean_rc"] == 0 and d["demo_patched_rc"] == 1 and d["suite_rc"] == 0
-    src = f"/tmp/wt/out/{d['id']}/{d['x']}"
+    src = d.get("src") or f"/tmp/wt/out/{d['id']}/{d['x']}"
     dst = os.path.join(ROOT, "seeded", f"{d['id']}-{d['x']}")
     if not ok:
         print("NOT confirmed", d); continue
